@@ -42,7 +42,7 @@ type histCase struct {
 	Fault int `json:"fault"`
 }
 
-var mapFree = []string{"Simple", "Empty", "BigStrings", "Widths", "Registered", "Skips", "Embeds", "ReuseTwice", "SubOdd", "WideRecord", "WideRecord", "EmbedMid"}
+var mapFree = []string{"Simple", "Empty", "BigStrings", "Widths", "Registered", "Skips", "Embeds", "ReuseTwice", "SubOdd", "WideRecord", "WideRecord", "EmbedMid", "RowTime", "RowNullInt", "RowNullString"}
 
 func drawHistCase(t *rapid.T, mapFreeOnly bool) histCase {
 	var c histCase
